@@ -19,8 +19,8 @@ GUARD = "{ if refset.is_empty() { return false; } "
 TOGGLE = "!self.test_set(&operator.toggle_negate(), refset, resource)"
 SET_ATOMS = {"self.begin": "NSb", "self.end": "NSe", "WHITESPACE_LIMIT": "NWsLimit"}
 FOLD_RE = re.compile(
-    r"^let mut (\w+) = None; for other in refset\.iter\(\) \{ if (\w+)\.is_none\(\) \|\| other\.(begin|end) (<|>) (\w+)\.unwrap\(\) "
-    r"\{ (\w+) = Some\(other\.(begin|end)\); \} \} (.*)$", re.S)
+    r"^let mut (\w+) = None; for (?P<it>\w+) in refset\.iter\(\) \{ if (\w+)\.is_none\(\) \|\| (?P=it)\.(begin|end) (<|>) (\w+)\.unwrap\(\) "
+    r"\{ (\w+) = Some\((?P=it)\.(begin|end)\); \} \} (.*)$", re.S)
 
 
 def parse_expr(text, binds, foldvar):
@@ -30,7 +30,7 @@ def parse_expr(text, binds, foldvar):
     if foldvar:
         b = re.sub(r"Some\(([\w.]+)\) == %s\b" % re.escape(foldvar), r"SOMEEQ(\1)", b)
         b = b.replace("if let Some(%s) = %s {" % (foldvar, foldvar), "if IFFOLD {")
-    if "resource" in b or "refset" in b or "gap" in b or "reftextsel" in b or "let Some" in b:
+    if re.search(r"\b(resource|refset|gap|reftextsel)\b", b) or "let Some" in b:
         raise T.TranslateError("expression not understood: %s" % b[:300])
     p = RP.P(RP.tokenize(b), binds, foldvar=foldvar, atoms=SET_ATOMS)
     e = p.expr()
@@ -49,9 +49,11 @@ def parse_stmt(body, binds):
         if inner != TOGGLE:
             raise T.TranslateError("negation arm not understood: %s" % b[:200])
         return "SToggle"
-    if b == ANY:
+    # the loop variable may have any name
+    if re.match(r"^\{ for (\w+) in refset\.iter\(\) \{ if self\.test\(operator, \1, resource\) \{ return true; \} \} false \}$", b):
         return "SAny"
-    if b == ALL:
+    if re.match(r"^\{ if refset\.is_empty\(\) \{ return false; \} for (\w+) in refset\.iter\(\) \{ if !self\.test\(operator, \1, resource\) "
+                r"\{ return false; \} \} true \}$", b):
         return "SAllNonEmpty"
     if not (b.startswith(GUARD) and b.endswith("}")):
         raise T.TranslateError("arm body not understood: %s" % b[:300])
@@ -59,16 +61,16 @@ def parse_stmt(body, binds):
     m = FOLD_RE.match(rest)
     if m:
         v = m.group(1)
-        if not (m.group(2) == v and m.group(5) == v and m.group(6) == v):
+        if not (m.group(3) == v and m.group(6) == v and m.group(7) == v):
             raise T.TranslateError("fold over different variables: %s" % rest[:200])
-        field, cmp_, field2 = m.group(3), m.group(4), m.group(7)
+        field, cmp_, field2 = m.group(4), m.group(5), m.group(8)
         if (field, cmp_, field2) == ("begin", "<", "begin"):
             kind = "SFoldMinBegin"
         elif (field, cmp_, field2) == ("end", ">", "end"):
             kind = "SFoldMaxEnd"
         else:
             raise T.TranslateError("fold not understood: other.%s %s .. Some(other.%s)" % (field, cmp_, field2))
-        return "(%s %s)" % (kind, parse_expr(m.group(8).strip(), binds, v))
+        return "(%s %s)" % (kind, parse_expr(m.group(9).strip(), binds, v))
     if "for " in rest or "let mut" in rest or "return" in rest:
         raise T.TranslateError("statement not understood: %s" % rest[:300])
     return "(SNonEmpty %s)" % parse_expr(rest, binds, None)
